@@ -26,6 +26,7 @@ type GenCfg struct {
 	Waitlist   int   `json:"waitlist"`
 	Orders     int   `json:"orders"`
 	EqualStake bool  `json:"equal_stake"`
+	EqualPools bool  `json:"equal_pools,omitempty"` // some pools start with reserve0 == reserve1 (orders exactly at the pool price)
 	PriceCoin  bool  `json:"price_coin"` // commission table denominated in a custom coin
 	GenesisHr  int   `json:"genesis_hr"`
 	InitialH   int64 `json:"initial_h"` // first block height
@@ -200,7 +201,11 @@ func BuildGenesis(r *rand.Rand, g GenCfg) types.AppState {
 		if a == b {
 			continue
 		}
-		addPool(a, b, pip(logUniform(r, 2, 6)), pip(logUniform(r, 2, 6)))
+		r0, r1 := pip(logUniform(r, 2, 6)), pip(logUniform(r, 2, 6))
+		if g.EqualPools && k%2 == 0 {
+			r1 = new(big.Int).Set(r0)
+		}
+		addPool(a, b, r0, r1)
 	}
 	// LP tokens get dense ids after ordinary coins
 	for i, lp := range lpCoins {
@@ -421,7 +426,7 @@ type Profile struct {
 var allKinds = []string{"send", "multisend", "sell", "sellall", "buy", "createcoin", "recreatecoin", "createtoken", "recreatetoken",
 	"editcoinowner", "mint", "burn", "declare", "delegate", "unbond", "move", "seton", "setoff", "editcand", "editcandpk", "editcandcomm",
 	"createmultisig", "editmultisig", "sethalt", "voteupdate", "votecomm", "createpool", "addliq", "remliq", "sellpool", "buypool",
-	"sellallpool", "addorder", "remorder", "lockstake", "lock", "redeem", "pricevote", "unknowntype", "sellusdt", "sellbip"}
+	"sellallpool", "addorder", "remorder", "lockstake", "lock", "redeem", "pricevote", "unknowntype", "sellusdt", "sellbip", "dustorder", "fillorder"}
 
 // GeneralProfile exercises every transaction type with modest fault rates.
 func GeneralProfile() Profile {
@@ -433,6 +438,7 @@ func GeneralProfile() Profile {
 		w[k] = 8
 	}
 	w["sethalt"], w["voteupdate"], w["pricevote"], w["unknowntype"], w["editcandpk"] = 0, 0, 1, 1, 1
+	w["dustorder"], w["fillorder"] = 2, 4
 	return Profile{W: w, TxMin: 0, TxMax: 8, PAbsent: 0.03, PStreak: 0.02, PEvidence: 0.02, PBadNonce: 0.04, PBadSig: 0.03, PMultisig: 0.05,
 		PDup: 0.04, PGarbage: 0.02, PZeroGP: 0.02, PGasCustom: 0.2, PPayload: 0.1, PClockJump: 0.03, PWrongChain: 0.01, PBigAmt: 0.12}
 }
@@ -563,6 +569,19 @@ func GenOp(r *rand.Rand, p *Profile, nAcct int) Op {
 		}
 	case "remliq":
 		op.V[1], op.V[2] = Amt{Mode: 2}, Amt{Mode: 2}
+	case "dustorder":
+		// volume just above the minimum order volume (1e10): partial fills leave dust remainders
+		op.V[0] = Amt{Mode: 0, M: uint64(10000000000 + r.Int63n(40000000000))}
+		if r.Intn(4) == 0 {
+			op.V[0] = Amt{Mode: 0, M: uint64(1 + r.Intn(5000)), E: 15}
+		}
+	case "fillorder":
+		// per-mille of what the chosen order wants: below, at and beyond a complete fill
+		op.V[0] = Amt{Mode: 1, M: uint64([]int{300, 700, 950, 999, 1000, 1001, 1003, 1010, 1500}[r.Intn(9)])}
+		if r.Intn(3) == 0 {
+			op.V[0] = Amt{Mode: 1, M: uint64(200 + r.Intn(1400))}
+		}
+		op.V[1] = Amt{Mode: 2}
 	case "createcoin", "recreatecoin":
 		op.V[1] = Amt{Mode: 0, M: uint64(10000 + r.Intn(50000)), E: 18}
 		op.V[0] = Amt{Mode: 0, M: uint64(1 + r.Intn(100000)), E: 18}
